@@ -15,8 +15,9 @@ from ..core import Finding, RuleResult
 from ..facts import AnalysisBroken
 from ..flow import Engine, Tracker, TooManyStates
 from ..util import base_var
+from ..failflow import REPORTERS, FIXED_REPORTERS
 
-PROPS = ("C11", "C20", "C03")
+PROPS = ("C11", "C20", "C03", "C12")
 
 
 def destructors(P):
@@ -40,6 +41,11 @@ def path_of(m):
     return m.text()
 
 
+def elem_path(a):
+    """O->v[i]: the path of the vector (union-aware) plus the subscript as written"""
+    return "%s[%s]" % (path_of(a.kids[0]), a.kids[1].text())
+
+
 class DangTracker(Tracker):
     def __init__(self, fn, dtors, kept):
         self.fn = fn
@@ -60,12 +66,20 @@ class DangTracker(Tracker):
                     b = base_var(a)
                     if b is not None and b.refdecl in self.kept:
                         self.sites.add(n.id)
-                        return [st | {path_of(a)}]
+                        # the vector goes: its elements are no longer anybody's
+                        pre = path_of(a) + "["
+                        return [frozenset(x for x in st if not x.startswith(pre)) | {path_of(a)}]
+                elif a.k == "ArraySubscriptExpr" and a.kids[0].strip().k == "MemberExpr":
+                    # an element of a vector the object owns: O->v[i]
+                    b = base_var(a.kids[0].strip())
+                    if b is not None and b.refdecl in self.kept:
+                        self.sites.add(n.id)
+                        return [st | {elem_path(a)}]
                 elif a.k == "DeclRefExpr":
                     # the object itself goes away
                     pre = a.refname + "->"
                     return [frozenset(x for x in st if not x.startswith(pre))]
-            if n.callee not in self.dtors and st:
+            if n.callee not in self.dtors and st and n.callee not in REPORTERS and n.callee not in FIXED_REPORTERS:     # (an error reporter re-initialises nothing)
                 # a callee that is handed the object (or the address of the field) may well re-initialise it
                 drop = set()
                 for a in n.args():
@@ -87,8 +101,11 @@ class DangTracker(Tracker):
             l = n.kids[0].strip()
             if l.k == "MemberExpr":
                 t = path_of(l)
-                if t in st:
-                    return [st - {t}]
+                pre = t + "["
+                if t in st or any(x.startswith(pre) for x in st):
+                    return [frozenset(x for x in st if x != t and not x.startswith(pre))]
+            elif l.k == "ArraySubscriptExpr" and l.kids[0].strip().k == "MemberExpr" and elem_path(l) in st:
+                return [st - {elem_path(l)}]
             return [st]
         if n.k == "ReturnStmt" and st:
             for p in st:
@@ -110,7 +127,8 @@ def run(P, tier="quick"):
     for f in P.lib_functions():
         if f.cfg is None or f.body is None:
             continue
-        if not any(c.callee in dtors and c.args() and c.args()[0].strip().k == "MemberExpr" for c in f.calls()):
+        if not any(c.callee in dtors and c.args() and (c.args()[0].strip().k == "MemberExpr" or (
+                c.args()[0].strip().k == "ArraySubscriptExpr" and c.args()[0].strip().kids[0].strip().k == "MemberExpr")) for c in f.calls()):
             continue
         if f.ret == "void" and re.search(r"free|teardown|destroy|cleanup", f.name):
             # a teardown function: the object (or the part of it it owns) ends here; R01/R03 own that territory
